@@ -64,8 +64,26 @@ Drop(P, t, fuel) ==
     [] OTHER -> "u"
 
 \* ---------------------------------------------------------------- annotations
-\* vars: set of <<var, type>>; fn: function index; conv: other flows may converge here
-Ann(vars, fn, conv) == [vars |-> vars, fn |-> fn, conv |-> conv]
+\* vars: set of <<var, type>>; fn: function index; conv: other flows may converge here;
+\* env: the static environment [ap, w]: ap-tracking (<<"dis">> or <<"en", change, base>>, base 0 = function start)
+\* and the gas wallet (prepaid Const gas), replayed with this module's own rules from the per-branch ap change /
+\* gas cost / tracking toggle that the real compile recorded (only when the export carries them: HasEnv).
+Ann(vars, fn, conv, env) == [vars |-> vars, fn |-> fn, conv |-> conv, env |-> env]
+HasEnv(P) == "code" \in DOMAIN P /\ Len(P.code) = Len(P.stmts)
+NoEnv == [ap |-> <<"dis">>, w |-> 0]
+EntryEnv(P, f) == IF HasEnv(P) THEN [ap |-> <<"en", 0, 0>>, w |-> P.funcs[f].cost] ELSE NoEnv
+\* environment after branch b of statement idx towards statement t; bad = set of violated env rules
+EnvAfter(P, idx, b, t, env) ==
+  IF ~HasEnv(P) \/ b > Len(P.code[idx].br) THEN [env |-> NoEnv, bad |-> {}] ELSE
+  LET cb == P.code[idx].br[b]
+      ap2 == CASE cb.track = "disable" -> <<"dis">>
+               [] cb.track = "enable" -> <<"en", 0, t>>
+               [] OTHER -> IF env.ap[1] = "en" /\ cb.ap >= 0 THEN <<"en", env.ap[2] + cb.ap, env.ap[3]>> ELSE <<"dis">>
+      w2 == env.w - cb.gas
+  IN [env |-> [ap |-> ap2, w |-> w2],
+      bad |-> (IF cb.track = "enable" /\ env.ap[1] = "en" THEN {"ApTrackingAlreadyEnabled"} ELSE {})
+         \cup (IF w2 < 0 THEN {"WalletNegative"} ELSE {})]
+ExpectedReturnAp(P, f) == IF P.funcs[f].fn_ap >= 0 THEN <<"en", P.funcs[f].fn_ap, 0>> ELSE <<"dis">>
 VarIds(vars) == {p[1] : p \in vars}
 TypeOfVar(vars, v) == LET S == {p[2] : p \in {q \in vars : q[1] = v}} IN IF Cardinality(S) = 1 THEN CHOOSE x \in S : TRUE ELSE 0
 
@@ -83,7 +101,7 @@ IsBranchAlign(P, t) == t \in 1..N(P) /\ P.stmts[t].k = "inv" /\ P.stmts[t].lf \i
 EntryAnn(P) ==
   [t \in {P.funcs[f].entry : f \in 1..Len(P.funcs)} |->
      LET f == CHOOSE f \in 1..Len(P.funcs) : P.funcs[f].entry = t IN
-     Ann({<<P.funcs[f].params[k].v, P.funcs[f].params[k].ty>> : k \in 1..Len(P.funcs[f].params)}, f, FALSE)]
+     Ann({<<P.funcs[f].params[k].v, P.funcs[f].params[k].ty>> : k \in 1..Len(P.funcs[f].params)}, f, FALSE, EntryEnv(P, f))]
 EntryClash(P) == \E f, h \in 1..Len(P.funcs) : f # h /\ P.funcs[f].entry = P.funcs[h].entry
 EntryParamClash(P) == \E f \in 1..Len(P.funcs) : ~Distinct([k \in 1..Len(P.funcs[f].params) |-> P.funcs[f].params[k].v])
 
@@ -102,6 +120,7 @@ Branches(P, idx, a, rest, b, ann, bad) ==
       override == okLen /\ (~Distinct(br.res) \/ (SeqToSet(br.res) \cap VarIds(rest) # {}))
       vars == rest \cup newv
       t == br.t
+      ea == EnvAfter(P, idx, b, t, a.env)
       tOK == t \in 1..N(P)
       needAlign == nb > 1
       alignBad == tOK /\ needAlign /\ ~IsBranchAlign(P, t)
@@ -111,15 +130,17 @@ Branches(P, idx, a, rest, b, ann, bad) ==
                         (IF ann[t].fn # a.fn THEN {"InconsistentFunction"} ELSE {})
                    \cup (IF ann[t].vars # vars THEN {"MergeMismatch"} ELSE {})
                    \cup (IF ~ann[t].conv THEN {"InvalidConvergence"} ELSE {})
+                   \cup (IF HasEnv(P) /\ ann[t].env.ap # ea.env.ap THEN {"EnvApMismatch"} ELSE {})
+                   \cup (IF HasEnv(P) /\ ann[t].env.w # ea.env.w THEN {"EnvWalletMismatch"} ELSE {})
                   ELSE {}
       bad2 == bad \cup (IF okLen THEN {} ELSE {"ResultCount"})
                   \cup (IF override THEN {"VarOverride"} ELSE {})
                   \cup (IF tOK THEN {} ELSE {"BadTarget"})
                   \cup (IF alignBad THEN {"ExpectedBranchAlign"} ELSE {})
                   \cup (IF already THEN {"AnnotationAlreadySet"} ELSE {})
-                  \cup mergeBad
+                  \cup mergeBad \cup ea.bad
       ann2 == IF tOK /\ t \notin DOMAIN ann
-              THEN [x \in DOMAIN ann \cup {t} |-> IF x = t THEN Ann(vars, a.fn, ~needAlign) ELSE ann[x]]
+              THEN [x \in DOMAIN ann \cup {t} |-> IF x = t THEN Ann(vars, a.fn, ~needAlign, ea.env) ELSE ann[x]]
               ELSE ann
   IN Branches(P, idx, a, rest, b + 1, ann2, bad2)
 
@@ -138,7 +159,8 @@ StepVerdict(P, idx, ann, back) ==
   IF st.k = "ret" THEN
      [bad |-> (IF takeOK THEN {} ELSE {"MissingOrReusedVar"})
           \cup (IF takeOK /\ rest # {} THEN {"DanglingVar"} ELSE {})
-          \cup (IF takeOK /\ argTys # P.funcs[a.fn].rets THEN {"ReturnType"} ELSE {}),
+          \cup (IF takeOK /\ argTys # P.funcs[a.fn].rets THEN {"ReturnType"} ELSE {})
+          \cup (IF HasEnv(P) /\ a.env.ap # ExpectedReturnAp(P, a.fn) THEN {"FunctionApChange"} ELSE {}),
       ann |-> annKept]
   ELSE IF st.lf \notin 1..Len(P.libfuncs) \/ ~P.libfuncs[st.lf].known THEN [bad |-> {"UnknownLibfunc"}, ann |-> annKept]
   ELSE
